@@ -28,7 +28,17 @@ type MuxResult struct {
 const (
 	ProbeTubeType = 200
 	ProbeID       = 1
+	// HoldTubeType: tubes of this type are accepted by the victim application and then neither
+	// read nor closed (a slow or stalled consumer without a read deadline).
+	HoldTubeType = 201
 )
+
+// MuxOpts selects the victim application's behaviour.
+type MuxOpts struct {
+	// StopAccepting: after the probe tube has been accepted the application stops calling
+	// Accept (nobody drains the muxer's accept queue).
+	StopAccepting bool `json:"stop_accepting"`
+}
 
 func quietLog() *logrus.Entry {
 	l := logrus.New()
@@ -58,14 +68,17 @@ func pingPong(t *tubes.Reliable, msg string, within time.Duration) bool {
 
 // RunMuxCase: two real muxers over an in-memory connection; the server side is the victim. A
 // reliable probe tube is opened by the honest peer and echoed by the victim's accept loop (which
-// closes every other tube it is handed, like a server does with tube types it does not serve).
+// closes every other tube it is handed, like a server does with tube types it does not serve,
+// except tubes of HoldTubeType, which it keeps without reading).
 // Then the raw frames are injected into the victim's receive path, as sent by the peer; the
 // oracle observations are: the probe tube still echoes, and Stop returns within the bound.
-func RunMuxCase(frames [][]byte, stopBound time.Duration) (res MuxResult) {
+func RunMuxCase(frames [][]byte, opts MuxOpts, stopBound time.Duration) (res MuxResult) {
 	cv, cp := NewMemPair()
 	victim := tubes.Server(cv, &tubes.Config{Timeout: 60 * time.Second, Log: quietLog()})
 	peer := tubes.Client(cp, &tubes.Config{Timeout: 60 * time.Second, Log: quietLog()})
 	var accepted atomic.Int32
+	var held []tubes.Tube
+	_ = held
 	go func() {
 		for {
 			t, err := victim.Accept()
@@ -75,6 +88,11 @@ func RunMuxCase(frames [][]byte, stopBound time.Duration) (res MuxResult) {
 			accepted.Add(1)
 			if r, ok := t.(*tubes.Reliable); ok && t.Type() == ProbeTubeType && t.GetID() == ProbeID {
 				go io.Copy(r, r)
+				if opts.StopAccepting {
+					return
+				}
+			} else if t.Type() == HoldTubeType {
+				held = append(held, t) // kept open, never read
 			} else {
 				go t.Close()
 			}
@@ -93,7 +111,7 @@ func RunMuxCase(frames [][]byte, stopBound time.Duration) (res MuxResult) {
 		cv.Inject(f)
 	}
 	// give the receiver time to work through the injected frames (bounded)
-	for i := 0; i < 200 && len(cv.in) > 0; i++ {
+	for i := 0; i < 600 && len(cv.in) > 0; i++ {
 		time.Sleep(5 * time.Millisecond)
 	}
 	time.Sleep(30 * time.Millisecond)
